@@ -37,3 +37,29 @@ Definition safe_name (s : string) : bool :=
   match s with EmptyString => false | String c r => is_alpha c && all_word r end.
 
 Definition res_string_eqb (a b : result string) : bool := res_eqb String.eqb a b.
+
+(** * identifiers inside the document
+
+    A component named [s] is DECLARED under [convert_id prefix s], the prefix being that of its kind ("CPD" species, "PAR"
+    parameter, "AR" assignment rule, "RXN" reaction).  What the exporter writes where the component is REFERRED to: *)
+Definition math_ref (mn : math_names) (prefix s : string) : result string :=
+  match mn with
+  | MathRawNames => Ok s                       (* IdentifierReplacer puts the model's name into the tree *)
+  | MathIds => convert_id prefix s             (* _sbmlify_fn(fn, args, ids): ids.get(arg, arg) *)
+  | MathNamesUnknown => Err ErrOther
+  end.
+(** symbol of the initial assignment of a component of kind [prefix] *)
+Definition ia_symbol (mn : math_names) (prefix s : string) : result string :=
+  match mn with
+  | MathRawNames => convert_id "IA" s
+  | MathIds => convert_id prefix s
+  | MathNamesUnknown => Err ErrOther
+  end.
+(** a computed coefficient: id of the species reference, and variable of the assignment rule that is meant to set it *)
+Definition sref_id (mn : math_names) (reference : string) : result string :=
+  match mn with
+  | MathRawNames => convert_id "CPD" reference
+  | MathIds => convert_id "AR" reference
+  | MathNamesUnknown => Err ErrOther
+  end.
+Definition rule_variable (reference : string) : result string := convert_id "AR" reference.
